@@ -49,6 +49,13 @@ CHECKS = {
         note="Trusted: the generator's own escaper (every literal is checked with ast.literal_eval before use); the model of documented expansions; lines that are also Python assignment/tuple statements are C02/C03's domain and skipped (counted).",
         design="2/C04",
     ),
+    "C05": dict(
+        category="exploration",
+        technique="model-based property testing: exhaustive enumeration of small chain shapes + Hypothesis-generated chains against a reference interpreter written from docs/error_handling.rst and docs/tutorial.rst; process tier through real `xonsh -c` / script runs",
+        text="Chain shapes (&&, ||, and, or, not, parentheses; 1-6 leaves of 1-3 pipeline stages) x exit codes per stage x capture form per leaf (bare, ![], $[], $(), @$(), !()) x @error_raise/@error_ignore placement x leaf texts that are / are not valid Python x statement kind x both raise flags are executed through the real Execer with recording aliases and compared with the reference: ordered log of commands run, exception and returncode, which later statements ran; sampled programs run as -c and as script files must exit non-zero iff the model raises. All 1-2 leaf cases are enumerated in quick, the 3-leaf sub-space in thorough. A disagreement is re-run twice; one that does not reproduce is inconclusive. One recorded defect (fixed).",
+        note="Trusted: the reference interpreter (from the docs; where the docs are silent or contradict each other both outcomes are accepted - listed in the evidence assumptions); $() / $[] operands use their documented return values for truth; cases whose bare text parses differently from its explicit twin are C03's subject and skipped (counted).",
+        design="2/C05",
+    ),
     "C06": dict(
         category="exploration",
         technique="property-based testing over payload x writer behaviour x pipeline x capture kind x configuration with randomized, seeded schedule perturbation through guarded hook points in xonsh's reader/proxy/pipeline threads; round-trip oracle against the bytes the writer was told to write",
